@@ -31,10 +31,21 @@ func GenPure(r *rand.Rand, long bool) PureCase {
 	}
 	c.N = n
 	dropMode := r.IntN(5)
-	if long && r.IntN(2) == 0 {
-		dropMode = 5 // a few drops at the start, then a stable stretch longer than 2^15 / 2^16 packets
+	if long {
+		switch r.IntN(3) {
+		case 0:
+			dropMode = 5 // a few drops at the start, then a stable stretch longer than 2^15 / 2^16 packets
+		case 1:
+			// a few drops at the start, a quiet stretch, then again a few drops one full
+			// sequence-number cycle later (their numbers alias into the intervals recorded
+			// for the early ones, which the 128-entry table still holds), each followed by
+			// later copies of the withheld packet
+			dropMode = 6
+			n = 65536 + 200 + r.IntN(3000)
+			c.N = n
+		}
 	}
-	dropP := []float64{0.05, 0.3, 0.5, 0.02, 0.15, 0}[dropMode]
+	dropP := []float64{0.05, 0.3, 0.5, 0.02, 0.15, 0, 0}[dropMode]
 	lossP := []float64{0, 0.02, 0.1}[r.IntN(3)]
 	dupP := []float64{0, 0.03, 0.15}[r.IntN(3)]
 	reP := []float64{0, 0.05, 0.3}[r.IntN(3)]
@@ -48,6 +59,8 @@ func GenPure(r *rand.Rand, long bool) PureCase {
 			d = (idx/(1+int(c.Start)%3))%2 == 1
 		case 5:
 			d = idx < 4000 && idx%50 == 7
+		case 6:
+			d = (idx < 2000 || idx >= n-2500) && idx%50 == 7
 		case 3: // long bursts, many delta changes to recycle the 128-entry ring
 			if burst > 0 {
 				burst--
@@ -59,6 +72,21 @@ func GenPure(r *rand.Rand, long bool) PureCase {
 			d = r.Float64() < dropP
 		}
 		c.Steps = append(c.Steps, Step{idx, d})
+	}
+	if dropMode == 6 {
+		// later copies of every packet a drop was requested for
+		var out []Step
+		pending := map[int][]Step{}
+		for k, st := range c.Steps {
+			out = append(out, st)
+			out = append(out, pending[k]...)
+			delete(pending, k)
+			if st.Drop {
+				at := k + 1 + r.IntN(12)
+				pending[at] = append(pending[at], Step{st.Idx, r.IntN(2) == 0})
+			}
+		}
+		c.Steps = out
 	}
 	return c
 }
